@@ -118,16 +118,9 @@ fn write(
     state: &mut WinconBytes,
     buf: &[u8],
 ) -> std::io::Result<usize> {
-    for (style, printable) in state.extract_next(buf) {
-        let fg = style.get_fg_color().and_then(cap_wincon_color);
-        let bg = style.get_bg_color().and_then(cap_wincon_color);
-        let written = raw.write_colored(fg, bg, printable.as_bytes())?;
-        let possible = printable.len();
-        if possible != written {
-            // HACK: Unsupported atm
-            break;
-        }
-    }
+    // The text handed to the console can't be mapped back to an offset in `buf`, so a short
+    // write can't be reported: only claim `buf` once all of it made it through
+    write_all(raw, state, buf)?;
     Ok(buf.len())
 }
 
